@@ -236,7 +236,8 @@ impl StateSpace for RealVectorStateSpace {
         for i in 0..self.dimension {
             let (lower, upper) = self.bounds[i];
 
-            if !lower.is_finite() || !upper.is_finite() {
+            // A range whose width overflows cannot be sampled uniformly either.
+            if !lower.is_finite() || !upper.is_finite() || !(upper - lower).is_finite() {
                 return Err(StateSamplingError::UnboundedDimension { dimension_index: i });
             }
             if lower >= upper {
